@@ -677,7 +677,7 @@ pub fn check(paths: &Paths, tier: &str) -> i32 {
         "coverage": {
             "evaluations": evaluations,
             "distinct_nontrivial": distinct_nontrivial,
-            "rule": "one evaluation = one simulated run: tier P = one pdlc compilation (1–4 real processes incl. reference, history and restart) under a PRNG-drawn perturbation vector and I/O fault plan; tier L = 2–5 in-process compilation jobs interleaved step by step by the baton scheduler. Non-trivial and distinct: the (job, perturbation vector[, schedule]) tuple is unique in this run, differs from the canonical environment, at least one shim fault/perturbation actually fired (from the shim's event log), and the source has >= 2 declarations.",
+            "rule": "one evaluation = one simulated run: tier P = one pdlc compilation (1–5 real processes incl. reference, directory/process history and restart) under a PRNG-drawn perturbation vector and I/O fault plan; tier L = 2–6 in-process compilation jobs interleaved step by step (and at yield points inside the stages) by the baton scheduler; tier D = one BUF-SIM workload run against the CLI-generated module and each derive-macro module of a source, histories diffed; tier S = one cold process executing 2–4 shuttle threads under one seeded schedule. Not counted as evaluations: the exhaustive exclusion sweep (single leaves and all-children sets of the small descriptions) and the regression/known-finding probes, reported separately. Non-trivial and distinct: the (job, perturbation vector[, schedule]) tuple is unique in this run, differs from the canonical environment, at least one shim fault/perturbation actually fired (from the shim's event log), and the source has >= 2 declarations; tier D adds its distinct behaviour histories.",
             "samples": samples,
             "tier_P": {
                 "runs": p_done, "runs_requested": p_runs, "processes_spawned": procs, "wall_s": p_wall,
@@ -706,7 +706,7 @@ pub fn check(paths: &Paths, tier: &str) -> i32 {
         },
         "assumptions": [
             "the LD_PRELOAD shim sees every entropy/clock/pid/read/write call pdlc makes (true for this toolchain's std, which calls the libc wrappers; direct syscalls would bypass it)",
-            "the corpus (227 descriptions + seeded siblings) drives the code paths where an order/history dependence could live; paths no corpus entry reaches are not covered",
+            "the corpus (descriptions under corpus/ + seeded siblings) drives the code paths where an order/history dependence could live; paths no corpus entry reaches are not covered",
             "sampling, not enumeration: a clean batch is evidence, not proof"
         ],
     });
